@@ -48,8 +48,9 @@ def build(spec, stream, start):
         if op in ('sum', 'count'):
             return getattr(sdf.x, op)(start=start), False
         A = {'mean': agg.Mean, 'var': agg.Var}[op]()
+        # (example given: accumulate_partitions would otherwise hand with_state to the accumulator)
         return sdf.x.accumulate_partitions(agg.accumulator, agg=A, start=start, stream_type='updating',
-                                           returns_state=True, with_state=True), True
+                                           returns_state=True, with_state=True, example=(None, 0.0)), True
     if k == 'gb':
         g = sdf.groupby('name').x
         if op in ('sum', 'count'):
@@ -141,6 +142,8 @@ def brief(v):
 
 
 def evaluate(prop, sc, want_trace=False):
+    import warnings
+    warnings.simplefilter('ignore')
     out = Outcome()
     spec = sc['agg']
     batches = make_batches(sc)
@@ -250,6 +253,8 @@ def generate(prop, rng, seed, index, tier):
     names = rng.choice([['a'], ['a', 'b'], ['a', 'b', 'c']])
     for _ in range(nb):
         size = rng.choice([0, 1, 1, 2, 3, 4, 6]) if rng.random() < 0.9 else 0
+        if spec.get('op') == 'var' and size == 0 and not batches:
+            size = 2          # (a variance over nothing fails in the uninterrupted run already)
         ts, xs, ns = [], [], []
         for _ in range(size):
             t += rng.choice([0, 1, 1, 2, 4])
